@@ -282,6 +282,30 @@ def run():
     ctx0.drift = []
     fncommon.validate(ctx0, l2, "Trace_Lm", "stl", nshards=1)
     t.check("Jacobian taken at the trial point that was not kept -> that run is rejected (drift)", [d["case"] for d in ctx0.drift] == [lrows[j]["id"]])
+    nwc = [c for c in c08.systems(rng0, 60) if c["method"] == "newton" and c["dim"] >= 2][:15]
+    for k, c in enumerate(nwc):
+        c["id"] = k + 1
+    nws = [{"id": r_["id"], "method": r_["method"], "dim": r_["dim"], "start": r_["start"], "tol": r_["tol"], "n_max": r_["n_max"], "obs": r_["obs"]}
+           for r_ in fncommon.observe(ctx0, "iter", nwc, "stn", nproc=1)]
+    ctx0.drift = []
+    fncommon.validate(ctx0, nws, "Trace_Newton", "stn", nshards=1)
+    t.check("clean newton() closure-call traces admitted pass by pass by NewtonP over doubles (refinement)", not ctx0.drift and len(nws) == 15, "%d runs" % len(nws))
+    j = next(k for k, r_ in enumerate(nws) if r_["obs"]["ret"] == "ok" and len(r_["obs"]["calls"]) >= 6)
+    n2 = copy.deepcopy(nws)
+    xq = n2[j]["obs"]["calls"][2]["x"]
+    moved = [vlib.float_to_pair(vlib.pair_to_float(xq[0]) + 1e-3)] + xq[1:]
+    n2[j]["obs"]["calls"][2]["x"] = moved
+    n2[j]["obs"]["calls"][3]["x"] = moved
+    ctx0.drift = []
+    fncommon.validate(ctx0, n2, "Trace_Newton", "stn", nshards=1)
+    t.check("second newton iterate moved by 1e-3 (not the Newton point) -> that run is rejected (drift)", [d["case"] for d in ctx0.drift] == [nws[j]["id"]])
+    n2 = copy.deepcopy(nws)
+    n2[j]["obs"]["calls"] = n2[j]["obs"]["calls"][:-2]
+    n2[j]["obs"]["nf"] -= 1
+    n2[j]["obs"]["nj"] -= 1
+    ctx0.drift = []
+    fncommon.validate(ctx0, n2, "Trace_Newton", "stn", nshards=1)
+    t.check("newton run stopped one pass early (step still above tol) -> that run is rejected (drift)", [d["case"] for d in ctx0.drift] == [nws[j]["id"]])
     # ---- binding: IVP contract trace -----------------------------------------------------------------
     ctx = vlib.Ctx("SELFTEST", "quick", 1, "other")
     rng = random.Random(7)
